@@ -119,6 +119,40 @@ def main():
         elif not strict:
             strict_fail.append(sid)
 
+    # ---- 4b. when only the correspondence (or the discipline a theorem rests on) broke, look harder for an input on
+    #          which the property itself fails: the module proposes variants of the diverging scenarios
+    deep_tried = 0
+    if proj_fail and not mon_fail and not crashed and hasattr(P, "deepen") and not replay:
+        # scenarios whose second component is false (C01: cyclic lock-order graph) first
+        cands = sorted(proj_fail, key=lambda x: hl.parse_covered(vals.get(x)) is not False)
+        for sid0 in cands[:6]:
+            variants = P.deepen(byid[sid0], rng)
+            deep_tried += len(variants)
+            res2, _ = hl.run_harness(driver, variants, pid + "d")
+            items2 = []
+            for v in variants:
+                r2 = res2.get(v.sid)
+                if r2 is None or r2.get("crashed") or not r2["done"] or r2["error"] or r2["adr"] is None:
+                    continue
+                e2 = P.coq_expr(v, r2)
+                if e2 is not None:
+                    items2.append((v.sid, e2))
+            vals2, _ = hl.run_coq_cases(pid + "d", P.CASE_MODULES, items2)
+            hit = None
+            for vsid, _ in items2:
+                vv = hl.parse_verdict(vals2.get(vsid))
+                if vv is not None and not vv[2]:
+                    hit = vsid
+                    break
+            if hit:
+                v = next(x for x in variants if x.sid == hit)
+                byid[hit] = v
+                res[hit] = res2[hit]
+                vals[hit] = vals2[hit]
+                mon_fail.append(hit)
+                notes.append(f"failing input found by varying scenario {sid0} ({deep_tried} variants tried)")
+                break
+
     violations = 0
     lines = []
     if crashed:
@@ -171,8 +205,9 @@ def main():
             "strict_trace_equal": len(items) - len(strict_fail) - len(proj_fail) - len(mon_fail) - len(unparsed),
             "projection_mismatches": len(proj_fail), "monitor_failures_on_impl": len(mon_fail),
             "known_finding_hits": {k: len(v) for k, v in known_hits.items()},
-            "scenarios_meeting_whole_history_theorem_hypotheses": (f"{covered[1]} of {covered[0]} sequential scenarios "
-                                                                   "(wf_histb evaluated in Coq)") if covered[0] else "n/a",
+            ("executions_with_acyclic_lock_order_graph" if pid == "C01" else
+             "scenarios_meeting_whole_history_theorem_hypotheses"): (f"{covered[1]} of {covered[0]}") if covered[0] else "n/a",
+            "variants_tried_after_a_mismatch": deep_tried,
             "framework_errors": len(framework), "exhaustive": bool(getattr(P, "EXHAUSTIVE", {}).get(tier, False)),
         },
         "assumptions": P.ASSUMPTIONS, "wall_s": round(time.time() - t0, 1), "violations": violations,
